@@ -142,6 +142,20 @@ class Interp:
             self.depth -= 1
             return [("return", s, UNK, trail)]
         self.stack.append(qual)
+        if not getattr(fn, "_e9_scanned", False):
+            # a decision taken by looking the connection state / role up in a table: the branches are data, not control flow
+            for x in ast.walk(fn):
+                key = None
+                if isinstance(x, ast.Subscript) and isinstance(x.ctx, ast.Load):
+                    key = x.slice
+                elif isinstance(x, ast.Call) and isinstance(x.func, ast.Attribute) and x.func.attr == "get" and x.args:
+                    key = x.args[0]
+                if key is not None and unparse(key) in ("self._connection_state", "self._connection_role"):
+                    self.stack.pop()
+                    self.depth -= 1
+                    raise AnalysisError(f"E9: {qual} looks `{unparse(key)}` up in a table (`{unparse(x)[:50]}`): a data-driven decision on the connection state is "
+                                        "not visible to the session model")
+            fn._e9_scanned = True
         try:
             outs = self.block(fn.body, s, env, trail, qual)
         finally:
